@@ -386,24 +386,24 @@ fn main() {
             prefill: 3,
             threads: vec![vec![Alloc, FreeOldest], vec![Alloc, Alloc, FreeOldest, FreeOldest]],
             bound_quick: 2,
-            bound_thorough: 3,
+            bound_thorough: 4,
             uaf_site: Some("sp.pop.deref"),
         }));
-        reg.add(Sched(PoolSpec { name: "LockFreeMemoryPool H2a: 2 threads, pop/pop/push ABA shape", make: lf_face, prefill: 3, threads: aba2.clone(), bound_quick: 2, bound_thorough: 3, uaf_site: None }));
-        reg.add(Sched(PoolSpec { name: "LockFreeMemoryPool H2b: 3 threads", make: lf_face, prefill: 3, threads: aba3.clone(), bound_quick: 2, bound_thorough: 3, uaf_site: None }));
-        reg.add(Sched(PoolSpec { name: "five_level::LockFreePool H3a: 2 threads, pop/pop/push ABA shape", make: fl_face, prefill: 3, threads: aba2.clone(), bound_quick: 2, bound_thorough: 3, uaf_site: None }));
-        reg.add(Sched(PoolSpec { name: "five_level::LockFreePool H3b: 3 threads", make: fl_face, prefill: 3, threads: aba3.clone(), bound_quick: 2, bound_thorough: 3, uaf_site: None }));
-        reg.add(Sched(PoolSpec { name: "FixedCapacityMemoryPool[3 blocks] H4a: 2 threads, pop/pop/push ABA shape", make: fc_face, prefill: 0, threads: aba2.clone(), bound_quick: 2, bound_thorough: 3, uaf_site: None }));
-        reg.add(Sched(PoolSpec { name: "FixedCapacityMemoryPool[3 blocks] H4b: 3 threads", make: fc_face, prefill: 0, threads: aba3.clone(), bound_quick: 2, bound_thorough: 3, uaf_site: None }));
+        reg.add(Sched(PoolSpec { name: "LockFreeMemoryPool H2a: 2 threads, pop/pop/push ABA shape", make: lf_face, prefill: 3, threads: aba2.clone(), bound_quick: 2, bound_thorough: 4, uaf_site: None }));
+        reg.add(Sched(PoolSpec { name: "LockFreeMemoryPool H2b: 3 threads", make: lf_face, prefill: 3, threads: aba3.clone(), bound_quick: 2, bound_thorough: 4, uaf_site: None }));
+        reg.add(Sched(PoolSpec { name: "five_level::LockFreePool H3a: 2 threads, pop/pop/push ABA shape", make: fl_face, prefill: 3, threads: aba2.clone(), bound_quick: 2, bound_thorough: 4, uaf_site: None }));
+        reg.add(Sched(PoolSpec { name: "five_level::LockFreePool H3b: 3 threads", make: fl_face, prefill: 3, threads: aba3.clone(), bound_quick: 2, bound_thorough: 4, uaf_site: None }));
+        reg.add(Sched(PoolSpec { name: "FixedCapacityMemoryPool[3 blocks] H4a: 2 threads, pop/pop/push ABA shape", make: fc_face, prefill: 0, threads: aba2.clone(), bound_quick: 2, bound_thorough: 4, uaf_site: None }));
+        reg.add(Sched(PoolSpec { name: "FixedCapacityMemoryPool[3 blocks] H4b: 3 threads", make: fc_face, prefill: 0, threads: aba3.clone(), bound_quick: 2, bound_thorough: 4, uaf_site: None }));
         reg.add(Sched(PoolSpec {
             name: "FixedCapacityMemoryPool[3 blocks, lazy init] H4c: first calls race",
             make: fc_face_lazy,
             prefill: 0,
             threads: vec![vec![Alloc, FreeOldest], vec![Alloc, FreeOldest]],
             bound_quick: 2,
-            bound_thorough: 3,
+            bound_thorough: 4,
             uaf_site: None,
         }));
-        reg.add(Sched(PoolSpec { name: "five_level::MutexBasedPool H5: 2 threads (control)", make: mx_face, prefill: 3, threads: aba2.clone(), bound_quick: 2, bound_thorough: 3, uaf_site: None }));
+        reg.add(Sched(PoolSpec { name: "five_level::MutexBasedPool H5: 2 threads (control)", make: mx_face, prefill: 3, threads: aba2.clone(), bound_quick: 2, bound_thorough: 4, uaf_site: None }));
     });
 }
